@@ -87,24 +87,31 @@ def run(repo: Repo, chk: Check, thorough: bool = False) -> None:
     if len(cvars) != 1 or len(rvars) != 1:
         raise AnalysisError(f'qnmatch.translate: character variable {cvars} / result variable {rvars} not identified')
     cvar, rvar = next(iter(cvars)), next(iter(rvars))
+    from ..cfg import if_branches
+    last_else_stmts: List[ast.stmt] = []
     for n in tr.walk():
-        if isinstance(n, ast.If) and isinstance(n.test, ast.Compare) and isinstance(n.test.left, ast.Name) and n.test.left.id == cvar and \
-                isinstance(n.test.ops[0], ast.Eq):
-            ch = const_str(n.test.comparators[0])
+        if not isinstance(n, ast.If):
+            continue
+        t0, yes, no = if_branches(n)
+        if isinstance(t0, ast.Compare) and isinstance(t0.left, ast.Name) and t0.left.id == cvar and isinstance(t0.ops[0], ast.Eq):
+            ch = const_str(t0.comparators[0])
             if ch is None:
                 continue
             entry: Dict[str, List[str]] = {}
-            inner = [s for s in n.body if isinstance(s, ast.If)]
+            inner = [s for s in yes if isinstance(s, ast.If)]
             if ch == '*' and inner:
                 i0 = inner[0]
-                dbl = any(isinstance(c, ast.Compare) and const_str(c.comparators[0]) == '*' for c in ast.walk(i0.test))
+                ti, iyes, ino = if_branches(i0)
+                dbl = any(isinstance(c, ast.Compare) and const_str(c.comparators[0]) == '*' for c in ast.walk(ti))
                 if dbl:
-                    entry['double'] = _appended_constants(i0.body, rvar)
-                    entry['single'] = _appended_constants(i0.orelse, rvar)
-                    entry['advances'] = [norm(s) for s in i0.body if isinstance(s, (ast.Assign, ast.AugAssign)) and not norm(s).startswith(rvar)]
+                    entry['double'] = _appended_constants(iyes, rvar)
+                    entry['single'] = _appended_constants(ino, rvar)
+                    entry['advances'] = [norm(s) for s in iyes if isinstance(s, (ast.Assign, ast.AugAssign)) and not norm(s).startswith(rvar)]
             else:
-                entry['frag'] = _appended_constants(n.body, rvar)
+                entry['frag'] = _appended_constants(yes, rvar)
             table[ch] = entry
+            if ch == '[':
+                last_else_stmts = no
     if '*' not in table or '?' not in table or '[' not in table:
         raise AnalysisError(f'qnmatch.translate: branch table not recognised (found {sorted(table)})')
     star = table['*']
@@ -124,10 +131,7 @@ def run(repo: Repo, chk: Check, thorough: bool = False) -> None:
            f'emits {q[0]!r}' if cq == 'any1' else f"'?' emits {q} which denotes {cq}", tr.loc)
     # other characters are escaped
     esc = [c for c in calls_in(tr) if call_name(c) == 'escape' and c.args and norm(c.args[0]) == cvar]
-    last_else = False
-    for n in tr.walk():
-        if isinstance(n, ast.If) and isinstance(n.test, ast.Compare) and norm(n.test.left) == cvar and const_str(n.test.comparators[0]) == '[':
-            last_else = any(isinstance(c, ast.Call) and call_name(c) == 'escape' for st in n.orelse for c in ast.walk(st))
+    last_else = any(isinstance(c, ast.Call) and call_name(c) == 'escape' for st in last_else_stmts for c in ast.walk(st))
     chk.ob('R13.1', 'qnmatch.translate :: every other character matches itself', bool(esc) and last_else,
            'final else: res + re.escape(c)' if esc and last_else else 'ordinary characters are not escaped (a "." in a pattern would match any character)', tr.loc)
     # anchoring: wrapper has the DOTALL group and \Z, and matching starts at the beginning
@@ -149,16 +153,19 @@ def run(repo: Repo, chk: Check, thorough: bool = False) -> None:
     # [seq]: leading ! negates, leading ^ or [ is escaped
     br = None
     for n in tr.walk():
-        if isinstance(n, ast.If) and isinstance(n.test, ast.Compare) and norm(n.test.left) == cvar and const_str(n.test.comparators[0]) == '[':
-            br = n
+        if isinstance(n, ast.If):
+            tb, _, _ = if_branches(n)
+            if isinstance(tb, ast.Compare) and norm(tb.left) == cvar and const_str(tb.comparators[0]) == '[':
+                br = n
     neg = esc2 = False
     if br is not None:
         for n in ast.walk(br):
-            if isinstance(n, ast.If) and isinstance(n.test, ast.Compare) and isinstance(n.test.left, ast.Subscript) and norm(n.test.left.slice) == '0':
-                if const_str(n.test.comparators[0]) == '!' and any("'^'" in norm(s) for s in n.body):
-                    neg = True
-                for o in n.orelse:
-                    if isinstance(o, ast.If) and "'^'" in norm(o.test) and any('\\\\' in norm(s) for s in o.body):
+            if isinstance(n, ast.If):
+                tn, nyes, nno = if_branches(n)
+                if isinstance(tn, ast.Compare) and isinstance(tn.left, ast.Subscript) and norm(tn.left.slice) == '0':
+                    if const_str(tn.comparators[0]) == '!' and any("'^'" in norm(s) for s in nyes):
+                        neg = True
+                    if "'^'" in norm(tn.comparators[0]) and any('\\\\' in norm(s) for s in nyes):
                         esc2 = True
     chk.ob('R13.1', "qnmatch.translate :: '[!seq]' negates the set", neg, "leading '!' becomes '^'" if neg else "'[!seq]' is no longer translated to a negated set", tr.loc)
     chk.ob('R13.1', "qnmatch.translate :: a literal leading '^' in a set is escaped", esc2, "'^' / '[' at the start of the set get a backslash" if esc2 else
